@@ -11,8 +11,15 @@ git checkout -q -- . ; rm -f dropshot/tests/seeded_demo_*.rs
 git apply --check "$DIFF" || { echo "CONFIRM: diff does not apply"; exit 2; }
 git apply "$DIFF"
 echo "== suite with change"
-cargo test --workspace --no-fail-fast --offline > /tmp/confirm_suite.log 2>&1; SUITE=$?
-grep -E "^test result|FAILED" /tmp/confirm_suite.log | head -12
+# (the suite's pagination example tests bind fixed ports: concurrent suites on
+# this machine collide, so take a lock and retry a failed run)
+for TRY in 1 2 3; do
+  flock /tmp/dropshot_suite.lock cargo test --workspace --no-fail-fast --offline > /tmp/confirm_suite_$$.log 2>&1; SUITE=$?
+  [ $SUITE -eq 0 ] && break
+  echo "suite attempt $TRY failed:"; grep -E "FAILED|failed" /tmp/confirm_suite_$$.log | head -5
+  sleep 5
+done
+grep -E "^test result" /tmp/confirm_suite_$$.log | head -12
 cp "$DEMO" dropshot/tests/$NAME.rs
 echo "== demo with change (must fail)"
 cargo test --offline -p dropshot --test $NAME > /tmp/confirm_demo_with.log 2>&1; WITH=$?
